@@ -14,10 +14,71 @@ One entry per function:
   locals                optional {python local: type} overriding the inference
   tie_theorem           the theorem of lean/BoltonsVerif/Cxx/SrcTie.lean that ties the generated
                         definition to the hand model
-Types: Int | Bool | Str (= List Char) | List T | Option T | T × U | α
+Types: Int | Bool | Str (= List Char) | List T | Option T | T × U | α | Dict K V | None (= Unit)
+
+Methods of a class WITH OBJECT STATE (round 3): the class is described once (`name`, `lean_name`, `tparams`,
+`deceq` = type variables used as dict keys, `state` = {attribute: type}); each method spec carries
+  cls                   the class description (its `methods` list is filled in below: callee lookup)
+  py                    Python name of the method (several specs may translate one method at different
+                        argument kinds: `update` of an iterable of keys / of a mapping)
+  raises                True: raising mode (exceptions as values, result `Except PyExc R`)
+  fuel                  True: the method is (mutually) recursive: extra parameter `fuel : Nat` (call depth)
+  kwargs                {name: Dict type} of `**name`
+The result is `R`, `Except PyExc R`, or paired with the new state (`… × Cls.St`) when the method changes it.
+A fixed-length LIST of ints that the code indexes with constants (`[count, delta]`) is declared as a product.
 """
 
+
+def _cls_methods(cls, module, methods):
+    out = []
+    for m in methods:
+        sp = dict(m)
+        sp.update(module=module, cls=cls, method=True, qualname='%s.%s' % (cls['name'], m['py']),
+                  lean_name='%s.%s' % (cls['lean_name'], m['name']))
+        sp.setdefault('kind', 'function')
+        sp.setdefault('raises', True)
+        del sp['name']
+        out.append(sp)
+    cls['methods'] = out
+    return out
+
+
+# boltons.cacheutils.ThresholdCounter.  `_thresh_count` (= int(1 / threshold), float arithmetic in __init__)
+# is a state field; __init__ itself is not translated.
+THRESHOLD_COUNTER = {
+    'name': 'ThresholdCounter', 'lean_name': 'ThresholdCounter', 'tparams': ['κ'], 'deceq': ['κ'],
+    'state': {'total': 'Int', '_count_map': 'Dict κ (Int × Int)', '_cur_bucket': 'Int', '_thresh_count': 'Int'},
+}
+_TC = _cls_methods(THRESHOLD_COUNTER, 'boltons.cacheutils', [
+    {'py': 'add', 'name': 'add', 'params': {'key': 'κ'}, 'result': 'None',
+     'tie_theorem': 'C20.src_add_eq_model'},
+    {'py': '__getitem__', 'name': 'getitem', 'params': {'key': 'κ'}, 'result': 'Int',
+     'tie_theorem': 'C20.src_getitem_eq_model'},
+    {'py': '__len__', 'name': 'len', 'params': {}, 'result': 'Int',
+     'tie_theorem': 'C20.src_len_eq_model'},
+    {'py': '__contains__', 'name': 'contains', 'params': {'key': 'κ'}, 'result': 'Bool',
+     'tie_theorem': 'C20.src_contains_eq_model'},
+    {'py': 'get', 'name': 'get', 'params': {'key': 'κ', 'default': 'Int'}, 'result': 'Int',
+     'tie_theorem': 'C20.src_get_eq_model'},
+    {'py': 'get_common_count', 'name': 'get_common_count', 'params': {}, 'result': 'Int',
+     'tie_theorem': 'C20.src_get_common_count_eq_model'},
+    {'py': 'get_uncommon_count', 'name': 'get_uncommon_count', 'params': {}, 'result': 'Int',
+     'tie_theorem': 'C20.src_get_uncommon_count_eq_model'},
+    {'py': 'iteritems', 'name': 'iteritems', 'params': {}, 'kind': 'generator', 'result': 'κ × Int',
+     'tie_theorem': 'C20.src_iteritems_eq_model'},
+    {'py': 'most_common', 'name': 'most_common', 'params': {'n': 'Option Int'}, 'result': 'List (κ × Int)',
+     'tie_theorem': 'C20.src_most_common_eq_model'},
+    {'py': 'update', 'name': 'update_map', 'params': {'iterable': 'Option (Dict κ Int)'},
+     'kwargs': {'kwargs': 'Dict κ Int'}, 'result': 'None', 'fuel': True,
+     'tie_theorem': 'C20.src_update_map_eq_model'},
+    {'py': 'update', 'name': 'update_keys', 'params': {'iterable': 'Option (List κ)'},
+     'kwargs': {'kwargs': 'Dict κ Int'}, 'result': 'None', 'fuel': True,
+     'tie_theorem': 'C20.src_update_keys_eq_model'},
+])
+
+
 SPECS = {
+    'C20': _TC,
     'C09': [
         {
             'module': 'boltons.iterutils', 'qualname': 'chunk_ranges', 'lean_name': 'chunk_ranges',
